@@ -439,6 +439,14 @@ FMS_Leaves == <<[p |-> pA, vals |-> {I(1)}, extra |-> FALSE],
 \* family "deepsections" (C01, C03, C08, C11): a whole section read under a pre-set that fixes a member two levels
 \* down while the caller supplies a sibling of that member
 pSTX == <<"S", "T", "X">>  pSTY == <<"S", "T", "Y">>  pSU == <<"S", "U">>
+\* family "shadowsection" (C02, C01): a key pre-set to a SCALAR while the caller supplies a SECTION under it.  The
+\* pre-set value wins, so nothing below the wrapper depends on the caller's section: dictionaries that differ only
+\* inside it are one demand (one body run) for every cached dataset that reaches the wrapper.
+FSH_Kinds == {"opt", "fnapp", "ds", "with"}
+FSH_Paths == {pA, pB}
+FSH_Presets == {Dv([k \in {"A"} |-> I(4)])}
+FSH_Leaves == <<[p |-> <<"A", "X">>, vals |-> {I(1), I(2)}, extra |-> FALSE],
+                [p |-> pB, vals |-> {I(1)}, extra |-> FALSE]>>
 FDS_Kinds == {"opt", "with", "cached", "fnapp", "ds", "dsof"}
 FDS_Paths == {<<"S">>, pSTY}
 FDS_Bodies == {"f"}
